@@ -14,9 +14,11 @@ package main
 import (
 	"context"
 	"fmt"
+	"os"
 	"sort"
 	"strconv"
 	"strings"
+	"testing/fstest"
 
 	scalibr "github.com/google/osv-scalibr"
 	"github.com/google/osv-scalibr/detector"
@@ -347,6 +349,8 @@ func run(line string) string {
 				fsP, stP, dP = el.FilterByCapabilities(fsP, &c), sl.FilterByCapabilities(stP, &c), dl.FilterByCapabilities(dP, &c)
 			}
 			return preTail(&scalibr.ScanConfig{FilesystemExtractors: fsP, StandaloneExtractors: stP, Detectors: dP, Capabilities: &c})
+		case "prer":
+			return runPreRoots(t)
 		case "pref":
 			c := capsOf(t[1])
 			return preTail(&scalibr.ScanConfig{Detectors: []detector.Detector{fakeDet{fake{"fakedet", capsOf(t[2])}, unhexList(t[3])}}, Capabilities: &c})
@@ -409,6 +413,80 @@ func run(line string) string {
 		}
 		return "bad-op"
 	})
+}
+
+// ---- the pre-scan check under different SCAN ROOT shapes, and a real Scan
+
+var realRootDir string // a tiny real directory (created once, removed at exit)
+
+// scanRoots builds the scan roots of a shape: n = none, r = one real directory, v = one virtual file system
+// (ScanRoot{FS: …, Path: ""}, what ScanContainer and in-memory scans use), rv = both.
+func scanRoots(shape string) []*scalibrfs.ScanRoot {
+	real := func() *scalibrfs.ScanRoot { return scalibrfs.RealFSScanRoot(realRootDir) }
+	virt := func() *scalibrfs.ScanRoot {
+		return &scalibrfs.ScanRoot{FS: fstest.MapFS{"a.txt": &fstest.MapFile{Data: []byte("x")}, "d/b.txt": &fstest.MapFile{Data: []byte("y")}}, Path: ""}
+	}
+	switch shape {
+	case "n":
+		return nil
+	case "r":
+		return []*scalibrfs.ScanRoot{real()}
+	case "v":
+		return []*scalibrfs.ScanRoot{virt()}
+	case "rv":
+		return []*scalibrfs.ScanRoot{real(), virt()}
+	}
+	panic("shape " + shape)
+}
+
+// prer <shape> <flt> <caps> <fs names> <st names> <det names>: like `pre`, with scan roots of the given shape in the config,
+// (1) the real EnableRequiredExtractors + ValidatePluginRequirements on the real plugins, (2) a real scalibr.New().Scan
+// over those roots with stand-ins that carry each selected plugin's name, Requirements() and RequiredExtractors() but do
+// nothing when run (the real detectors / standalone extractors would inspect this machine). The outcome of requirement
+// validation must be a function of (capabilities, plugin requirements) only — not of the scan roots.
+func runPreRoots(t []string) string {
+	if len(t) != 7 {
+		return "bad-op"
+	}
+	shape, c := t[1], capsOf(t[3])
+	fsP, e1 := el.ExtractorsFromNames(unhexList(t[4]))
+	stP, e2 := sl.ExtractorsFromNames(unhexList(t[5]))
+	dP, e3 := dl.DetectorsFromNames(unhexList(t[6]))
+	if e1 != nil || e2 != nil || e3 != nil {
+		return "res=badname fs=- st=- scan=-"
+	}
+	if t[2] == "1" {
+		fsP, stP, dP = el.FilterByCapabilities(fsP, &c), sl.FilterByCapabilities(stP, &c), dl.FilterByCapabilities(dP, &c)
+	}
+	// stand-ins for the real Scan (built before EnableRequiredExtractors appends to the real lists)
+	var fsF []filesystem.Extractor
+	var stF []standalone.Extractor
+	var dF []detector.Detector
+	for _, p := range fsP {
+		fsF = append(fsF, fakeFS{fake{p.Name(), *p.Requirements()}})
+	}
+	for _, p := range stP {
+		stF = append(stF, fakeST{fake{p.Name(), *p.Requirements()}})
+	}
+	for _, p := range dP {
+		dF = append(dF, fakeDet{fake{p.Name(), *p.Requirements()}, p.RequiredExtractors()})
+	}
+	res := preTail(&scalibr.ScanConfig{FilesystemExtractors: fsP, StandaloneExtractors: stP, Detectors: dP, Capabilities: &c, ScanRoots: scanRoots(shape)})
+	c2 := c
+	sr := scalibr.New().Scan(context.Background(), &scalibr.ScanConfig{FilesystemExtractors: fsF, StandaloneExtractors: stF, Detectors: dF, Capabilities: &c2, ScanRoots: scanRoots(shape)})
+	scan := "ok"
+	if sr.Status.Status != plugin.ScanStatusSucceeded {
+		msg := sr.Status.FailureReason
+		switch {
+		case strings.Contains(msg, "can't be enabled") || strings.Contains(msg, "not present in list.go"):
+			scan = "prefail"
+		case strings.Contains(msg, "no scan root specified"):
+			scan = "noroot"
+		default:
+			scan = "other"
+		}
+	}
+	return res + " scan=" + scan
 }
 
 // ---- operation sequences: a filter is a pure function
@@ -528,6 +606,12 @@ func main() {
 	o := hx.Parse()
 	out := hx.NewOut()
 	defer out.Flush()
+	var err error
+	if realRootDir, err = os.MkdirTemp("", "c19root"); err != nil {
+		panic(err)
+	}
+	defer os.RemoveAll(realRootDir)
+	_ = os.WriteFile(realRootDir+"/a.txt", []byte("x"), 0o644)
 	emit := func(l string) { out.Emit(l, run(l)) }
 	if o.Replay != "" {
 		for _, l := range hx.ReplayLines(o.Replay) {
@@ -577,6 +661,24 @@ func main() {
 		}
 	}
 	emit("uniq")
+	// scan-root shapes (both tiers): the filtered registry, the filtered defaults and EVERY plugin alone, for every capability
+	// tuple x {no root, a real directory, a virtual file system, both}: requirement validation and a real Scan
+	for _, sh := range []string{"n", "r", "v", "rv"} {
+		for _, c := range caps {
+			emit("prer " + sh + " 1 " + c + " " + hx.Hex("all") + " " + hx.Hex("all") + " " + hx.Hex("all"))
+			emit("prer " + sh + " 1 " + c + " " + hx.Hex("default") + " " + hx.Hex("default") + " " + hx.Hex("all"))
+			emit("prer " + sh + " 0 " + c + " " + hx.Hex("default") + " " + hx.Hex("default") + " " + hx.Hex("all"))
+			for _, p := range plugins["fs"] {
+				emit("prer " + sh + " 1 " + c + " " + hx.Hex(p) + " - -")
+			}
+			for _, p := range plugins["st"] {
+				emit("prer " + sh + " 1 " + c + " - " + hx.Hex(p) + " -")
+			}
+			for _, p := range plugins["det"] {
+				emit("prer " + sh + " 1 " + c + " - - " + hx.Hex(p))
+			}
+		}
+	}
 	// operation sequences (both tiers): the registry's `all` list, the `default` list and a FromCapabilities result, filtered
 	// with every ordered pair of 10 representative capability tuples, and with three tuples in a row
 	rep := []string{"0000", "1011", "1211", "2000", "2100", "3011", "1000", "1111", "2211", "3200"}
